@@ -152,6 +152,11 @@ func (s *stubSvc) Handle(ctx context.Context, conn net.Conn) error {
 		w.mu.Unlock()
 		return nil
 	}
+	// the greeting goes out before any queued write is started, so the order of the
+	// service's writes is the order in which the harness asked for them
+	if len(p.greeting) > 0 {
+		write(p.greeting)
+	}
 	quit := make(chan struct{})
 	wdone := make(chan struct{})
 	go func() {
@@ -169,9 +174,6 @@ func (s *stubSvc) Handle(ctx context.Context, conn net.Conn) error {
 			}
 		}
 	}()
-	if len(p.greeting) > 0 {
-		write(p.greeting)
-	}
 	if p.delay > 0 {
 		time.Sleep(p.delay)
 	}
